@@ -3,6 +3,7 @@
 #include <stdio.h>
 #include <stddef.h>
 #include "cop_protocol.h"
+#include "vm.h"
 #define P(n) printf(#n " %llu\n", (unsigned long long)(n))
 int main(void) {
     P(TAG_VOID); P(TAG_INT); P(TAG_U8); P(TAG_FLOAT); P(TAG_BOOL); P(TAG_STRING); P(TAG_BSTRING); P(TAG_ARRAY);
@@ -15,6 +16,7 @@ int main(void) {
     printf("HDR_OFF_RESERVED %zu\n", offsetof(CopMsgHeader, reserved));
     printf("HDR_OFF_LEN %zu\n", offsetof(CopMsgHeader, payload_len));
     printf("SIZEOF_NANOVALUE %zu\n", sizeof(NanoValue));
+    printf("VM_ERROR_MSG_SIZE %zu\n", sizeof(((VmState *)0)->error_msg));
     { unsigned x = 1; printf("LITTLE_ENDIAN %d\n", *(unsigned char *)&x == 1); }
     return 0;
 }
